@@ -813,6 +813,11 @@ class IncludeNode(DirectiveNode):
             is_system_include,
         )
 
+        # Identify the file by its canonical path, to match the path recorded
+        # by #pragma once.
+        if include_file:
+            include_file = os.path.realpath(include_file)
+
         if include_file and kwargs["platform"].process_include(include_file):
             # include files use the same language as the file itself,
             # irrespective of file extension.
